@@ -44,6 +44,8 @@ PopCarriers == {"ir_version", "producer", "modelid", "model_doc", "model_meta", 
                 "value_info", "vi_meta", "init_doc", "init_meta", "func_meta"}
 Features == {"foldable", "deadnode", "call", "deadfunc", "rewritable", "subgraph", "init_io",
              "symdims",    \* connected values declare one extent under different dim_param names (joined by an Identity)
+             "norev",      \* a Mish node (new in opset 18: "No Previous Version"): the ONNX C API REFUSES 18 -> 17, the pass logs
+                           \* "the model was not modified" and the wrapper must hand back an unchanged model (session 6)
              "constif"}    \* two Ifs with constant condition; each taken branch owns an initializer "w" shadowing
                            \* the main-graph "w", whose first fresh name "w_1" is taken too
 Switches == PopCarriers \cup Features
@@ -135,7 +137,7 @@ Apply(pass, m, feat, devs) ==
     \* have no value_info yet (existing annotations are kept)
     [] pass = "FoldInfer" -> LET f == FoldStruct(IF "foldable" \in feat THEN FoldAll(m) ELSE m, feat)
                              IN [f EXCEPT !["value_info"] = IF @ = "none" THEN "x" ELSE @,
-                                          !["nodes"] = IF {"deadnode", "rewritable"} \cap feat # {} THEN "x" ELSE @]  \* their values get annotated too
+                                          !["nodes"] = IF {"deadnode", "rewritable", "norev"} \cap feat # {} THEN "x" ELSE @]  \* their values get annotated too
     \* the default rules collapse the Transpose pair; matching reads constants, which annotates
     \* the output of a Constant node (main graph and function bodies) with the type of its tensor
     \* When a rule fired, apply_to_model ends with NameFixPass, which makes value names globally unique:
@@ -158,6 +160,8 @@ Apply(pass, m, feat, devs) ==
     \* re-attached and the user inputs restored BY POSITION (io_sig and the initializers are not needed to change).
     \* Deviation: the graph that comes back has lost metadata_props and some doc strings.
     [] pass = "ConvertCApi" ->
+         IF "norev" \in feat THEN m       \* call_onnx_api raises; its finally block restores inputs and initializers
+         ELSE
          LET c == [m EXCEPT !["opset_main"] = "x",
                             !["value_info"] = IF @ = "none" THEN "x" ELSE @,
                             !["nodes"] = IF {"foldable", "rewritable", "subgraph", "constif"} \cap feat # {} THEN "x" ELSE @]
@@ -203,7 +207,8 @@ Init == /\ api \in Apis /\ on = {} /\ dense \in BOOLEAN /\ pc = "build"
         /\ out = NoOut
 Extend == /\ pc = "build"
           /\ Cardinality(on) < (IF dense THEN MaxDense ELSE MaxSparse)
-          /\ \E s \in Switches : s \notin on /\ on' = on \cup {s}
+          /\ \E s \in Switches : /\ s \notin on /\ on' = on \cup {s}
+                                  /\ (s = "norev" => api # "convert_old_fb")     \* Mish does not exist at the old source opset
           /\ UNCHANGED <<api, dense, pc, w, out>>
 \* the call: the argument object exists
 Call == /\ pc = "build"
